@@ -24,7 +24,7 @@ const (
 	F50   = "F50-deepcopy-drops-empty-binary"
 )
 
-var c04Variants = []string{"vtu", "vtw", "vocc", "voccw", "vocu"}
+var c04Variants = []string{"vtu", "vtw", "vocc", "voccw", "vocu", "vtu2"}
 
 const c04Rule = "variant x schema-conforming tree (biased to unkeyed lists, []Binary leaf-lists, binary / union leaves, union leaf-lists, ordered lists, wrapper unions) " +
 	"x {DeepCopy(t) | MergeStructs(a,b[,overwrite]) of a compatible split (a,b) of t} x mutated side x mutation in {full scribble of all reachable mutable memory, random subset, one targeted location}; " +
